@@ -1,5 +1,91 @@
 import Ecal.Drivers.Util
+import Ecal.Model.Lexer
+import Ecal.Model.LexerSpec
+/-!
+Driver of C18. Two case kinds (payload, space separated):
+
+* `L <src-hex>` — result: `pos,line,col` of every token the lexer emits (comments, EOF and
+  error token included), joined by single spaces; the EOF token as `eof,line`.
+* `E <P|R> <src-hex> <off>` — a program with a planted parse (`P`) or runtime (`R`) error whose
+  offending token starts at byte offset `off` (`eof`: the EOF token). Result: `line,col` the
+  error must carry = the fields of that token in the lexer model.
+
+The specification (true line / column recomputed from the byte offset, `Ecal.Lex.Spec`) is
+evaluated on every case for every token except EOF (which has no first character). Where the
+model (= the code) deviates from it the line carries `spec=<result with true positions>` and
+`kf=hash-comment-column` if the classifier holds for **every** deviating token and the line
+number is right, `kf=unexplained-position` (not a listed finding ⇒ violation) otherwise.
+`nt=1`: some compared token lies on a line > 1.
+-/
 namespace Ecal.Drv.C18
-/-- model driver of property C18 (stub: not implemented yet) -/
-def run (_args : List String) : IO Unit := Ecal.Drv.lineLoop fun _ => "unimplemented"
+open Ecal.Drv Ecal.Lex Ecal.Lex.Spec
+
+def triple (p l : Nat) (c : Int) : String := s!"{p},{l},{c}"
+
+structure Verdict where
+  model : String
+  spec : String
+  deviates : Bool
+  explained : Bool
+  nontrivial : Bool
+
+def attrs (v : Verdict) : String :=
+  v.model ++ (if v.nontrivial then "\tnt=1" else "")
+    ++ (if v.deviates then
+          "\tkf=" ++ (if v.explained then "hash-comment-column" else "unexplained-position") ++ "\tspec=" ++ v.spec
+        else "")
+
+/-- per token: (model text, spec text, deviates, explained) -/
+def judge (inp : Bytes) (toks : List Tok) (t : Tok) (withPos : Bool) : String × String × Bool × Bool :=
+  let m := if withPos then triple t.pos t.line t.col else s!"{t.line},{t.col}"
+  if t.id = tEOF then
+    -- EOF has no first character; its Pos and column are leftovers of the previous token and
+    -- are not compared, only its line is
+    let e := if withPos then s!"eof,{t.line}" else s!"{t.line},eof"
+    (e, e, false, true)
+  else
+    let tl := lineOf inp t.pos
+    let tc := colOf inp t.pos
+    let s := if withPos then triple t.pos tl tc else s!"{tl},{tc}"
+    let dev := t.line != tl || t.col != tc
+    (m, s, dev, t.line = tl && afterHashComment inp toks t.pos)
+
+def lexCase (src : List Nat) : String :=
+  let inp := src.toArray
+  let toks := (lex src).toList
+  let js := toks.map fun t => judge inp toks t true
+  let v : Verdict := {
+    model := " ".intercalate (js.map (·.1)),
+    spec := " ".intercalate (js.map (·.2.1)),
+    deviates := js.any (·.2.2.1),
+    explained := js.all fun j => !j.2.2.1 || j.2.2.2,
+    nontrivial := toks.any fun t => t.id != tEOF && t.line > 1 }
+  if toks.isEmpty then "-" else attrs v
+
+def errCase (src : List Nat) (off : String) : String :=
+  let inp := src.toArray
+  let toks := (lex src).toList
+  let tok? : Option Tok :=
+    if off = "eof" then (match toks.getLast? with | some t => if t.id = tEOF then some t else none | none => none)
+    else match off.toNat? with
+      | some o => toks.find? fun t => t.pos = o && t.id != tEOF && t.id != tPRECOMMENT && t.id != tPOSTCOMMENT
+      | none => none
+  match tok? with
+  | none => "no-token-at-offset"
+  | some t =>
+    let j := judge inp toks t false
+    attrs { model := j.1, spec := j.2.1, deviates := j.2.2.1, explained := j.2.2.2,
+            nontrivial := t.line > 1 }
+
+def runCase (payload : String) : String :=
+  match payload.splitOn " " with
+  | ["L", h] => match hexDecode h with
+    | some src => lexCase src
+    | none => "bad-payload"
+  | ["E", _k, h, off] => match hexDecode h with
+    | some src => errCase src off
+    | none => "bad-payload"
+  | _ => "bad-payload"
+
+def run (_args : List String) : IO Unit := lineLoop runCase
 end Ecal.Drv.C18
